@@ -1,2 +1,2 @@
 (* all pins *)
-From BBF Require Pins.Pins_C01 Pins.Pins_C02 Pins.Pins_C03 Pins.Pins_C04 Pins.Pins_C05 Pins.Pins_C06 Pins.Pins_C07 Pins.Pins_C08 Pins.Pins_C09 Pins.Pins_C10 Pins.Pins_C11 Pins.Pins_C12 Pins.Pins_C13 Pins.Pins_C14 Pins.Pins_C15 Pins.Pins_C16 Pins.Pins_C17 Pins.Pins_C18 Pins.Pins_C20.
+From BBF Require Pins.Pins_C01 Pins.Pins_C02 Pins.Pins_C03 Pins.Pins_C04 Pins.Pins_C05 Pins.Pins_C06 Pins.Pins_C07 Pins.Pins_C08 Pins.Pins_C09 Pins.Pins_C10 Pins.Pins_C11 Pins.Pins_C12 Pins.Pins_C13 Pins.Pins_C14 Pins.Pins_C15 Pins.Pins_C16 Pins.Pins_C17 Pins.Pins_C18 Pins.Pins_C19 Pins.Pins_C20.
